@@ -7,7 +7,7 @@ def run(chk):
     thorough = chk.tier == "thorough"
     chk.lean(thorough_checker=thorough)
     allops = []
-    for variant in ("vsbx", "noop", "dylib"):
+    for variant in ("vsbx", "noop", "dylib", "noop_hooks"):
         binp, log = cc.build(variant)
         if binp is None:
             chk.fail(f"harness h_calls ({variant}) does not compile against the current headers", {"log_tail": log[-3000:]}, found=False)
@@ -41,7 +41,7 @@ def run(chk):
 
 def replay(chk, rp):
     op = rp.get("op") or rp["disagreements"][0]["op"]
-    variant = "vsbx" if op.startswith("tree ") else "noop"
+    variant = "vsbx" if op.startswith("tree ") else "noop_hooks" if op.startswith("treenh ") else "noop"
     binp, log = cc.build(variant)
     core.differential(chk, [op], binp, cc.oracle_c19, label="replay")
     return chk.finish()
